@@ -260,7 +260,7 @@ func main() {
 	for _, o := range eng.obls {
 		keepIt := len(tagw) == 0
 		switch o.Kind {
-		case "invariant-entry", "invariant-preserved", "decreases", "callee-precondition", "frame", "crash-invariant":
+		case "invariant-entry", "invariant-preserved", "decreases", "callee-precondition", "frame", "crash-invariant", "borrowed-slice":
 			if fnWanted[o.Func] {
 				keepIt = true
 			}
@@ -383,7 +383,10 @@ func (e *Engine) lemmaObligations() {
 			continue
 		}
 		o := &Obligation{Func: "lemma " + l.Name, Kind: "lemma", Tags: l.Tags, Clause: l.Src, Where: fmt.Sprintf("%s:%d", l.File, l.Line), Expect: "unsat"}
+		e.curC = nil
+		e.noAxioms = hasTag(l.Tags, "noaxioms")
 		o.Query = e.finishQuery(e.queryPrefix(st)+"(assert (not "+v.T+"))\n", false)
+		e.noAxioms = false
 		o.ID = fmt.Sprintf("lemma/%s/%d", l.Name, len(e.obls)+1)
 		e.obls = append(e.obls, o)
 	}
